@@ -23,6 +23,11 @@ def main():
             elif op == "new":
                 from vf.c04_common import make_handle
 
+                try:
+                    os.getcwd()
+                except OSError:
+                    os.chdir("/")      # (an earlier relative-path scenario may have left this process in a directory that is gone)
+
                 handles.clear()
                 for hid, spec in cmd["handles"].items():
                     if spec.get("plain"):
@@ -35,6 +40,19 @@ def main():
                             atexit.unregister(handles[hid]._backend.flush)   # (keep_atexit: a handle exactly as a user's program has it)
                     else:
                         handles[hid] = make_handle(cmd["path"], spec["ro"], spec["buf"])
+                rep = {"ok": True}
+            elif op == "new_rel":
+                # the program names its libraries by RELATIVE path: first one of the same spelling in another directory, then - after a
+                # chdir - the library under test
+                from vf.c04_common import make_handle
+
+                handles.clear()
+                os.makedirs(cmd["other_dir"], exist_ok=True)
+                os.chdir(cmd["other_dir"])
+                handles["_other"] = make_handle(os.path.basename(cmd["path"]), False, -1)
+                os.chdir(os.path.dirname(cmd["path"]))
+                for hid, spec in cmd["handles"].items():
+                    handles[hid] = make_handle(os.path.basename(cmd["path"]), spec["ro"], spec["buf"])
                 rep = {"ok": True}
             elif op == "new_gated":
                 # construct a handle, but stop right before its FIRST lock acquisition until the driver opens the gate:
